@@ -472,6 +472,50 @@ func pragmaTable(c *core.Ctx, s *core.Sink, pre *ssa.Function) {
 		s.Und(key, c.Pos(pre.Pos()), "needPragma codes for the charset / content attributes not recognised")
 		return
 	}
+	// helper form: the per-tag decision is a function returning (label, accepted); its caller returns the label iff accepted
+	helperMode := false
+	if rs := pre.Signature.Results(); rs.Len() == 2 && !hasTokenizerNextFn(pre) {
+		if b, ok := rs.At(1).Type().Underlying().(*types.Basic); ok && b.Kind() == types.Bool {
+			helperMode = true
+		}
+	}
+	if helperMode {
+		nSites := 0
+		for _, g := range c.SrcFuncs() {
+			for _, ci := range core.Calls(g) {
+				call, ok := ci.(*ssa.Call)
+				if !ok || call.Call.StaticCallee() != pre {
+					continue
+				}
+				nSites++
+				var lab, okv *ssa.Extract
+				for _, ref := range *call.Referrers() {
+					if ex, ok := ref.(*ssa.Extract); ok {
+						if ex.Index == 0 {
+							lab = ex
+						} else {
+							okv = ex
+						}
+					}
+				}
+				good := false
+				if lab != nil && okv != nil {
+					for _, ref := range *okv.Referrers() {
+						if iff, ok := ref.(*ssa.If); ok {
+							if r := retOf(iff.Block().Succs[0]); r != nil && r.Results[0] == ssa.Value(lab) && retOf(iff.Block().Succs[1]) == nil {
+								good = true
+							}
+						}
+					}
+				}
+				s.Check(good, core.FName(g)+": accepted label of the prescan helper is returned, a skipped tag continues the scan", c.Pos(call.Pos()), "if ok { return label }", "the caller of the per-tag prescan does not return exactly the accepted label, or stops scanning on a skipped tag")
+			}
+		}
+		if nSites == 0 {
+			s.Und(key, c.Pos(pre.Pos()), "prescan helper has no caller")
+			return
+		}
+	}
 	ev := newEval(c)
 	bad := ""
 	n := 0
@@ -485,9 +529,22 @@ func pragmaTable(c *core.Ctx, s *core.Sink, pre *ssa.Function) {
 				break
 			}
 			n++
-			accepted := exits[0].Ret != nil
+			isAccept := func(x fde.Exit) bool {
+				if x.Ret == nil {
+					return false
+				}
+				if helperMode {
+					v, isC := core.ConstBool(x.Ret.Results[1])
+					if !isC {
+						bad = "the prescan helper's verdict is not a constant at its returns"
+					}
+					return isC && v
+				}
+				return true
+			}
+			accepted := isAccept(exits[0])
 			for _, x := range exits {
-				if (x.Ret != nil) != accepted {
+				if isAccept(x) != accepted {
 					bad = fmt.Sprintf("decision for gotPragma=%v needPragma=%d depends on the label text", g, nd)
 				}
 			}
@@ -499,6 +556,15 @@ func pragmaTable(c *core.Ctx, s *core.Sink, pre *ssa.Function) {
 		}
 	}
 	s.Check(bad == "", key, c.Pos(pre.Pos()), fmt.Sprintf("%d states tabulated", n), bad)
+}
+
+func hasTokenizerNextFn(f *ssa.Function) bool {
+	for _, b := range f.Blocks {
+		if hasTokenizerNext(b) {
+			return true
+		}
+	}
+	return false
 }
 
 func hasTokenizerNext(b *ssa.BasicBlock) bool {
